@@ -522,6 +522,22 @@ func runC17(b *runner.Batch) {
 		}
 		b.Hit("candidate-removes-itself")
 	}
+	// a decision about a key that is not listed: the votes reach the threshold (nothing to remove, but the
+	// ballot ends there), the key registers, and the next votes are a fresh round: one vote must not remove it
+	// (unless the threshold is one), the threshold-th does (seeded change C17-5)
+	{
+		k := world.Key(b.Seed, b.Index, "cand-late", 0)
+		pb := k.PublicKey().Bytes()
+		for c := 0; c < v.threshold(); c++ {
+			v.runBlock([]*call{v.candRemoveCall(c, pb)})
+		}
+		v.w.FundGAS(world.Hash160Of(k), 10_0000_0000)
+		v.addCandidate(k)
+		for c := 0; c < v.threshold(); c++ {
+			v.runBlock([]*call{v.candRemoveCall(c, pb)})
+		}
+		b.Hit("decision-about-an-unlisted-key-then-registration")
+	}
 	ncalls := 400
 	if b.Thorough() {
 		ncalls = 50000 / (7 * 16)
@@ -551,9 +567,16 @@ func runC17(b *runner.Batch) {
 			case 6:
 				ck := world.Key(b.Seed, b.Index, "cand", 2+r.IntN(2))
 				pb := ck.PublicKey().Bytes()
+				// mostly a listed candidate; now and then the votes are for a key that is not (or no longer)
+				// listed and registers only later: a decision reached then has nothing to remove, but it is
+				// still the end of that ballot (seeded change C17-5)
 				if !v.cands[hex.EncodeToString(pb)] {
-					v.w.FundGAS(world.Hash160Of(ck), 10_0000_0000)
-					v.addCandidate(ck)
+					if r.IntN(3) != 0 {
+						v.w.FundGAS(world.Hash160Of(ck), 10_0000_0000)
+						v.addCandidate(ck)
+					} else {
+						b.Hit("removal-vote-for-a-key-that-is-not-listed")
+					}
 				}
 				blk = append(blk, v.candRemoveCall(caller, pb))
 			default:
@@ -591,7 +614,7 @@ func init() {
 		Assumptions: []string{"neo-go v0.107.0 VM, ledger and native contracts are the trusted base", "contracts are compiled at check time from /repo/contracts", "a call witnessed by several Alphabet keys is not generated (the contract counts the first one)"},
 		Batches:     c17Batches, Chunk: 2,
 		Floors: []string{"exhaustive-sequences", "fired-at-threshold-n1", "fired-at-threshold-n2", "fired-at-threshold-n3", "fired-at-threshold-n4", "fired-at-threshold-n5", "fired-at-threshold-n6", "fired-at-threshold-n7",
-			"stranger-call", "duplicate-vote", "stale-ballot-expired", "ballot-survives-gap-20", "several-votes-in-one-block", "fired:setConfig", "fired:cheque", "fired:alphabetUpdate", "fired:innerRingCandidateRemove", "candidate-removes-itself"},
+			"stranger-call", "duplicate-vote", "stale-ballot-expired", "ballot-survives-gap-20", "several-votes-in-one-block", "fired:setConfig", "fired:cheque", "fired:alphabetUpdate", "fired:innerRingCandidateRemove", "candidate-removes-itself", "removal-vote-for-a-key-that-is-not-listed", "decision-about-an-unlisted-key-then-registration"},
 		Run: runC17,
 		Exhaustive: func(tier string) (bool, string) {
 			l := 3
